@@ -286,6 +286,47 @@ func c01Random(c *Case) {
 			return
 		}
 	}
+	// the other public entry points must select the same set: MustCompile, CompileWithNS with a nil map, the
+	// package-level Select(), and Select through a navigator whose MoveTo adopts any position
+	if c.Index%4 == 0 {
+		ctx := d.Nodes[g.Intn(len(d.Nodes))]
+		want, _, _ := refNodeSet(p, xref.NewCtx(ctx))
+		alt := func(name string, f func(rec *xdoc.Rec) *xpath.NodeIterator) bool {
+			var res SelResult
+			rec := &xdoc.Rec{Limit: OpLimit}
+			func() {
+				defer func() {
+					if x := recover(); x != nil {
+						res.Panic, res.Budget = classify(x)
+					}
+					c.account(rec.Ops)
+				}()
+				drain(f(rec), d, &res)
+			}()
+			c.Count("entry:" + name)
+			gs, _ := AsSet(res.Nodes)
+			if res.Aborted() || res.Foreign > 0 || !SameNodes(gs, want) {
+				dd := docDetail(d, ctx)
+				dd["expr"], dd["entry_point"], dd["expected"], dd["observed_sequence"], dd["abort"] = src, name, xdoc.Labels(want), xdoc.Labels(res.Nodes), fmt.Sprint(res.Panic.String(), res.Budget)
+				c.Violation("ENTRY-POINT-DIFFERS", dd)
+				return false
+			}
+			return true
+		}
+		ok := alt("MustCompile", func(rec *xdoc.Rec) *xpath.NodeIterator { return xpath.MustCompile(src).Select(xdoc.NewNav(ctx, rec)) }) &&
+			alt("CompileWithNS(nil)", func(rec *xdoc.Rec) *xpath.NodeIterator {
+				e, err := xpath.CompileWithNS(src, nil)
+				if err != nil {
+					panic(err)
+				}
+				return e.Select(xdoc.NewNav(ctx, rec))
+			}) &&
+			alt("package Select", func(rec *xdoc.Rec) *xpath.NodeIterator { return xpath.Select(xdoc.NewNav(ctx, rec), src) }) &&
+			alt("navigator adopting any position", func(rec *xdoc.Rec) *xpath.NodeIterator { return ce.Select(xdoc.NewNavAnyMove(ctx, rec)) })
+		if !ok {
+			return
+		}
+	}
 	c.SampleEvery(997, func() interface{} { return map[string]interface{}{"family": "rand", "path": src, "doc": d.XML()} })
 }
 
